@@ -13,8 +13,7 @@ namespace etl {
 /// number representation and converts them to an integer value.
 [[nodiscard]] constexpr auto atoi(char const* str) noexcept -> int
 {
-    auto const result = strings::to_integer<int>(str);
-    return result.value;
+    return static_cast<int>(strings::to_integer_c<long>(str, 10).value);
 }
 
 } // namespace etl
